@@ -14,10 +14,10 @@ from ..core.explorer import Ctx, explore
 
 PROPERTY = "C11"
 LEVEL = "fault_enumeration"
-RULE = ("histories H1 (serial sweep of 3 designs), H2 (NSGA-II N=2, G=2: evaluate-time sync, per-generation re-sync, final sync_all), H4 (serial sweep in which one design fails transiently twice and is re-sampled), H3 "
+RULE = ("histories H1 (serial sweep of 3 designs), H2 (NSGA-II N=2, G=2: evaluate-time sync, per-generation re-sync, final sync_all), H4 (serial sweep in which one design fails transiently twice and is re-sampled), H5 (serial sweep in which the second design's synchronisation meets seven 'database is locked' answers of another writer before it gets through), H3 "
         "(sweep of 2 designs on 2 workers, every schedule with <=1 (thorough 2) pre-emptions): the writer process is killed (os._exit, no "
         "clean-up) at EVERY event index (objective entry/exit, before/after each connect / execute / commit); additionally SIGKILL "
-        "immediately before EVERY file-mutating system call (pwrite64, unlink, ftruncate, fsync, ...) of H1 (thorough: H1, H2 and H4), which reaches death inside a commit. After each death the "
+        "immediately before EVERY file-mutating system call (pwrite64, unlink, ftruncate, fsync, ...) of H1 (thorough: H1, H2, H4 and H5), which reaches death inside a commit. After each death the "
         "file is reopened by ProblemViewDataStore and plain sqlite3: view opens, integrity_check ok, every acknowledged id has a row, "
         "every row is complete JSON whose costs are [] or exactly f(vector) with matching signed costs. Crashes before the store's creation "
         "has committed are counted as pre_creation and not judged. Non-trivial = crash point after creation; distinct = distinct "
@@ -68,11 +68,27 @@ def run_history(name, db, ack_fd, on_point, ctx=None, seed=0):
     problem = make_problem(n_params=2, bounds=[[0.0, 1.0], [-2.0, 2.0]], criteria=["minimize", "maximize"], f=f,
                            before=before, after=after)
 
+    class ForcedLock:
+        """Environment answers for H5: another writer holds the file during the second design's synchronisation, the store
+        meets `left` "database is locked" answers at its upsert before the lock goes away."""
+        left = 0
+
+        def choose(self, kind, n, price, label):
+            if self.left > 0:
+                self.left -= 1
+                return 1
+            return 0
+    forced = ForcedLock()
+    synced = {"n": 0}
+
     def attach(store):
         inner_si, inner_sa = store.sync_individual, store.sync_all
 
-        def si(individual):
-            r = inner_si(individual)
+        def si(individual, *a, **kw):       # the store's retry calls itself through this attribute, possibly with arguments
+            synced["n"] += 1
+            if name == "H5" and synced["n"] == 2:
+                forced.left = 7
+            r = inner_si(individual, *a, **kw)
             os.write(ack_fd, ("%d\n" % individual.id).encode())
             return r
 
@@ -83,13 +99,15 @@ def run_history(name, db, ack_fd, on_point, ctx=None, seed=0):
         store.sync_individual, store.sync_all = si, sa
         problem.data_store = store
         os.write(ack_fd, b"C\n")            # the store has been created (constructor returned)
-    if name in ("H1", "H2", "H4"):
+    if name in ("H1", "H2", "H4", "H5"):
         hooks = Hooks(None, on_point=on_point, zero_timeout=False)
+        if name == "H5":
+            hooks.ctx, hooks.extlock_max = forced, 7
         with sql_proxy(hooks):
             attach(SqliteDataStore(problem, database_name=db))
             if hasattr(on_point, "mark"):
                 on_point.mark("created")
-            if name in ("H1", "H4"):
+            if name in ("H1", "H4", "H5"):
                 if name == "H4":
                     sh = shim_mod.install()
                     sh.reset(77 + seed, None)
@@ -338,13 +356,13 @@ def replay(sub, case):
 
 def run(tier, seed):
     import artap.algorithm_sweep, artap.algorithm_NSGAII, artap.datastore  # noqa: F401,E401
-    shards = [("event", "H1", seed), ("event", "H2", seed), ("event", "H4", seed)]
+    shards = [("event", "H1", seed), ("event", "H2", seed), ("event", "H4", seed), ("event", "H5", seed)]
     scheds = h3_schedules(2 if tier == "thorough" else 1)
     shards += [("h3", tuple(s), seed) for s in scheds]
     extra = {"h3_schedules": len(scheds)}
     if True:
         if crash.strace_available():
-            for name in (("H1", "H2", "H4") if tier == "thorough" else ("H1",)):
+            for name in (("H1", "H2", "H4", "H5") if tier == "thorough" else ("H1",)):
                 db, ack = paths("%s-count" % name)
                 rc, counts = crash.strace_writer([name, str(seed), db], when=None)
                 if rc != 0 or not counts:
